@@ -19,8 +19,10 @@ def svgHtmlIntegrationPoint (n : EName) : Bool :=
 
 def htmlDefaultScope (n : EName) : Bool := htmlIn n htmlDefaultScopeNames
 
+def mathmlAnnotationXml (n : EName) : Bool := n.ns == nsMathml && isName n.loc "annotation-xml"
+
 def defaultScope (n : EName) : Bool :=
-  htmlDefaultScope n || mathmlTextIntegrationPoint n || svgHtmlIntegrationPoint n
+  htmlDefaultScope n || mathmlTextIntegrationPoint n || mathmlAnnotationXml n || svgHtmlIntegrationPoint n
 
 /-- `[default_scope] + "ol" "ul"` -/
 def listItemScope (n : EName) : Bool := if htmlIn n ["ol", "ul"] then true else defaultScope n
@@ -42,16 +44,19 @@ def thoroughImpliedEnd (n : EName) : Bool :=
 
 def headingTag (n : EName) : Bool := htmlIn n ["h1", "h2", "h3", "h4", "h5", "h6"]
 
-def specialTagNames : List String :=
+def htmlSpecialTagNames : List String :=
   ["address", "applet", "area", "article", "aside", "base", "basefont", "bgsound", "blockquote", "body",
    "br", "button", "caption", "center", "col", "colgroup", "dd", "details", "dir", "div", "dl", "dt", "embed",
    "fieldset", "figcaption", "figure", "footer", "form", "frame", "frameset", "h1", "h2", "h3", "h4", "h5",
-   "h6", "head", "header", "hgroup", "hr", "html", "iframe", "img", "input", "isindex", "li", "link",
+   "h6", "head", "header", "hgroup", "hr", "html", "iframe", "img", "input", "keygen", "li", "link",
    "listing", "main", "marquee", "menu", "meta", "nav", "noembed", "noframes", "noscript",
-   "object", "ol", "p", "param", "plaintext", "pre", "script", "section", "select", "source", "style",
+   "object", "ol", "p", "param", "plaintext", "pre", "script", "search", "section", "select", "source", "style",
    "summary", "table", "tbody", "td", "template", "textarea", "tfoot", "th", "thead", "title", "tr", "track",
    "ul", "wbr", "xmp"]
-def specialTag (n : EName) : Bool := htmlIn n specialTagNames
+def htmlSpecialTag (n : EName) : Bool := htmlIn n htmlSpecialTagNames
+/-- `special_tag` (tag_sets.rs): the HTML members plus the foreign members of the special category -/
+def specialTag (n : EName) : Bool :=
+  htmlSpecialTag n || mathmlTextIntegrationPoint n || mathmlAnnotationXml n || svgHtmlIntegrationPoint n
 
 /-! ### tag sets declared inside functions of `mod.rs` / `rules.rs` -/
 
@@ -77,12 +82,13 @@ def listed (n : EName) : Bool := if htmlIn n ["img"] then false else formAssocia
 def closeList (n : EName) : Bool := htmlIn n ["li"]
 def closeDefn (n : EName) : Bool := htmlIn n ["dd", "dt"]
 def extraSpecial (n : EName) : Bool := if htmlIn n ["address", "div", "p"] then false else specialTag n
-/-- `InTableBody: table_outer = "table" "tbody" "tfoot"` (as written in rules.rs) -/
-def tableOuterBody (n : EName) : Bool := htmlIn n ["table", "tbody", "tfoot"]
+/-- `InTableBody: table_outer = "tbody" "thead" "tfoot"` -/
+def tableOuterBody (n : EName) : Bool := htmlIn n ["tbody", "thead", "tfoot"]
 
 /-! ### `data.rs` -/
 
 def quirkyPublicPrefixes : List String := [
+  "+//silmaril//dtd html pro v0r11 19970101//",
   "-//advasoft ltd//dtd html 3.0 aswedit + extensions//",
   "-//as//dtd html 3.0 aswedit + extensions//",
   "-//ietf//dtd html 2.0 level 1//",
@@ -174,9 +180,9 @@ def doctypeErrorAndQuirks (d : Doctype) (iframeSrcdoc : Bool) : Bool × QuirksMo
   let pub := d.publicId.map (·.map asciiLower)
   let sys := d.systemId.map (·.map asciiLower)
   let quirk : QuirksMode :=
-    if d.forceQuirks then .quirks
+    if iframeSrcdoc then .noQuirks
+    else if d.forceQuirks then .quirks
     else if d.name != some "html".toList then .quirks
-    else if iframeSrcdoc then .noQuirks
     else if (match pub with | some p => listContains quirkyPublicMatches p | none => false) then .quirks
     else if (match sys with | some s => listContains quirkySystemMatches s | none => false) then .quirks
     else match pub with
